@@ -223,9 +223,16 @@ def build(desc):
 ROLE = {"change_obj": "objective", "cai": "objective", "rca": "objective", "keep_obj": "objective", "gc_obj": "objective"}
 
 
-def init_spec(desc, seq):
-    """-> (initialised spec, stub problem) ; raises what the code raises"""
+def init_spec(desc, seq, used_before=None):
+    """-> (initialised spec, stub problem) ; raises what the code raises.  `used_before`: a sequence on which the
+    user's specification object was initialised earlier (as part of another problem)"""
     stub = hard.Stub(seq)
-    spec = build(desc).initialized_on_problem(stub, role=ROLE.get(desc["kind"], "constraint"))
+    obj = build(desc)
+    if used_before:
+        try:
+            obj.initialized_on_problem(hard.Stub(used_before), role=ROLE.get(desc["kind"], "constraint"))
+        except Exception:
+            pass
+    spec = obj.initialized_on_problem(stub, role=ROLE.get(desc["kind"], "constraint"))
     stub.constraints = [spec]
     return spec, stub
